@@ -272,12 +272,19 @@ def gen_cases(ctx):
         if not timed:
             hist = [o for o in hist if o["op"] != "crop"]
         # at most two Sim(3) propagations (each doubles the scale along the path)
-        seen = 0
+        # and no propagation after an operation whose parameters are inexact floats (Umeyama result, projected
+        # rotations) on long trajectories: the exact rationals of a propagated chain grow with the pose index
+        seen, dirty = 0, False
         for i, o in enumerate(hist):
-            if o["op"] == "tf" and o["mode"] == "P" and o["T"] == full[5]["T"]:
-                seen += 1
-                if seen > 1 or n > 60:
-                    hist[i] = full[2]
+            if o["op"] in ("al", "pj"):
+                dirty = True
+            if o["op"] == "tf" and o["mode"] == "P":
+                if dirty and n > 40:
+                    hist[i] = full[1]
+                elif o["T"] == full[5]["T"]:
+                    seen += 1
+                    if seen > 1 or n > 60:
+                        hist[i] = full[2]
         yield dict(grid_base(r, timed, r.choice(["se3", "pq"]), n=n), ops=hist, stream="long-grid")
     n_rand = 700 if ctx.thorough else 120
     maxn = 200 if ctx.thorough else 60
@@ -341,9 +348,30 @@ def rot_toks(m):
     return " ".join(rat(m[i, j]) for i in range(3) for j in range(3))
 
 
+def icbrt(n):
+    """exact integer cube root or None"""
+    if n < 0:
+        return None
+    x = round(n ** (1.0 / 3.0)) if n < 2 ** 150 else int(round(math.exp(math.log(n) / 3.0)))
+    for c in (x - 1, x, x + 1):
+        if c >= 0 and c ** 3 == n:
+            return c
+    return None
+
+
 def norm_tok(T):
+    """parameter `norm` of the model's transform: `-` when evo takes T for SE(3); otherwise the scale of T — the exact
+    cube root of det(T[:3,:3]) when that is rational (exact-grid stream), else evo's own float sim3_scale(T)"""
     from evo.core import lie_algebra as lie
-    return "-" if lie.is_se3(T) else rat(float(lie.sim3_scale(T)))
+    if lie.is_se3(T):
+        return "-"
+    a = [[frac(float(T[i, j])) for j in range(3)] for i in range(3)]
+    det = (a[0][0] * (a[1][1] * a[2][2] - a[1][2] * a[2][1]) - a[0][1] * (a[1][0] * a[2][2] - a[1][2] * a[2][0])
+           + a[0][2] * (a[1][0] * a[2][1] - a[1][1] * a[2][0]))
+    cn, cd = icbrt(det.numerator), icbrt(det.denominator)
+    if cn is not None and cd is not None and cn > 0:
+        return rat(Fraction(cn, cd))
+    return rat(float(lie.sim3_scale(T)))
 
 
 def make_ref(op, cur_pos):
